@@ -308,7 +308,7 @@ m = {
   {"name": "vreplay/vh", "path": "/verif/harness", "serves_properties": sorted(CHECKS), "kind_free_text": "Rust harness: in-process replayer linked against the hooked cicada library, helper programs used as commands of generated lines"},
  ],
  "checks": [],
- "notes": "All checks: ./bin/check <ID> --tier quick|thorough; exit 0 held, 1 VIOLATION, 2 tool error. Known findings: /verif/known_findings.json. Design: /verif/DESIGN.md.",
+ "notes": "All checks: ./bin/check <ID> --tier quick|thorough; exit 0 held, 1 VIOLATION, 2 tool error. Known findings: /verif/known_findings.json. Design: /verif/DESIGN.md. Specification modules outside the listed properties (Prompt, Plan, Highlight, Multiline) are checked and bound by ./bin/extras [--tier quick|thorough] (exit 0 conforms, 1 DRIFT lines, 2 tool error); binding self-test: ./bin/selftest.py.",
  "not_applicable": [{"property_id": k, "reason": v} for k, v in sorted(NOT_YET.items())],
 }
 # families added in the later strengthening rounds (DESIGN.md 12.5)
